@@ -2,6 +2,7 @@
 package mc
 
 import (
+	"context"
 	"encoding/json"
 	"fmt"
 	"os"
@@ -12,6 +13,7 @@ import (
 	"strings"
 	"sync"
 	"testing"
+	"time"
 
 	"verifh/evid"
 	"verifh/hist"
@@ -67,7 +69,7 @@ func (a *Agg) Add(res *vsync.Result, keyFn func(v *vsync.Violation) string) {
 	a.Scenarios = append(a.Scenarios, map[string]any{
 		"name": res.Name, "executions": res.Executions, "states": res.States, "transitions": res.Transitions,
 		"preemption_bound_completed": res.BoundCompleted, "exhaustive": res.Exhaustive, "distinct_outcomes": res.DistinctOutcomes,
-		"deadlocks": res.Deadlocks, "horizon_hits": res.HorizonHits, "violations": res.NViolations, "cap": res.Cap, "pruned_at_visited_state": res.Pruned,
+		"deadlocks": res.Deadlocks, "horizon_hits": res.HorizonHits, "violations": res.NViolations, "cap": res.Cap, "pruned_at_visited_state": res.Pruned, "wedged_executions": res.Hangs,
 		"max_simultaneously_enabled": res.MaxEnabled,
 	})
 	if len(a.Samples) < 4 && len(res.Samples) > 0 {
@@ -200,9 +202,23 @@ func RunScenarios(t *testing.T, agg *Agg, n int, mk func(i int) *vsync.Config, k
 			defer wg.Done()
 			for i := range next {
 				outf := filepath.Join(dir, fmt.Sprintf("r%d.json", i))
-				cmd := exec.Command(os.Args[0], "-test.run", "^"+t.Name()+"$", "-test.count", "1", "-test.timeout", "60m")
+				// a worker that hangs (e.g. un-instrumented code blocked on a lock held by a
+				// parked thread) is killed after the run's budget; its scenario is then
+				// reported as not exhausted, never as a violation.
+				budget := time.Until(agg.Run.Deadline()) + 2*time.Minute
+				if budget < 3*time.Minute {
+					budget = 3 * time.Minute
+				}
+				cctx, ccancel := context.WithTimeout(context.Background(), budget)
+				cmd := exec.CommandContext(cctx, os.Args[0], "-test.run", "^"+t.Name()+"$", "-test.count", "1", "-test.timeout", "60m")
 				cmd.Env = append(os.Environ(), "VERIF_SHARD_OUT="+outf, "VERIF_SHARD_CALL="+strconv.Itoa(callNo), fmt.Sprintf("VERIF_SHARD_IDX=[%d]", i), "GOMAXPROCS=1")
 				ob, err := cmd.CombinedOutput()
+				timedOut := cctx.Err() != nil
+				ccancel()
+				if timedOut {
+					results[i] = &vsync.Result{Name: fmt.Sprintf("scenario-%d", i), BoundCompleted: -1, Cap: "worker killed after exceeding the time budget (hang)"}
+					continue
+				}
 				b, rerr := os.ReadFile(outf)
 				var rs []*vsync.Result
 				if err != nil || rerr != nil || json.Unmarshal(b, &rs) != nil || len(rs) != 1 {
